@@ -43,6 +43,9 @@ CHECKS = {
  "C17": dict(cat="exploration", tech="property-based testing of generated argument/result structures against the recorder's ordered public-variable list",
    text="Sequences of 1-4 @snark calls with nested list/tuple/dict arguments of int/float/bool/pass-through leaves and generated bodies returning nested mixed structures: the public variables created per call must be exactly the numeric argument leaves then the secret results, in traversal order, each output wire uniquely pinned by the constraints (single-wire search), the returned structure equal to the undecorated body's, and keyword calls refused without a trace. Exploration.",
    note=TB + "; bodies limited to operations on which Python floats and fixed point agree exactly.", ref="4 (C17)"),
+ "C14": dict(cat="exploration", tech="differential property-based testing against a Fraction reference; exhaustive small grids over all operand type pairs",
+   text="Every fixed-point operator, for every operand type pair (fixed-point, secret int, secret bool, int, float; both orders), is run on complete grids of scaled values at resolution 3 [thorough: four (resolution, bitlength, field) grids] and on random dyadic operands over resolutions 0..12 and compared with exact Fraction arithmetic on the represented numbers; returned values must agree, and inside the documented domain the call must return. Grids exhaustive for their configuration; otherwise exploration.",
+   note=TB + "; Fraction reference of the documented semantics (harness/checks/c14.py).", ref="4 (C14), 3"),
 }
 PENDING = {}
 
